@@ -867,12 +867,26 @@ def run(tier, seed):
         ios.append(io)
         allterms.append(terms)
         flat.extend(t for (_k, t) in terms)
+    # NEARLY FLAT WEIGHTS (cube_util.near_flat_variant, after seeded change C02-11: `np.allclose` instead of
+    # list equality decided that a cube whose weights are all within 1e-5 of 1 is not weighted, and every
+    # weighted base / margin reported the unweighted N): the first cases with >= 3 respondents, re-weighted
+    rng_nf = random.Random(seed + 77)
+    src = [c for c in cases if len(c["_sv"].resp) >= 3 and not c.get("ca_as_0th")][:(40 if tier == "quick" else 600)]
+    for i, c0 in enumerate(src):
+        case = cu.near_flat_variant(c0, rng_nf, 10 ** 6 + i)
+        io, terms = build(case)
+        cases.append(case)
+        ios.append(io)
+        allterms.append(terms)
+        flat.extend(t for (_k, t) in terms)
     results, coq_s = core.run_coq_cases(PID, cu.IMPORTS, flat, shard=60) if flat else ([], 0.0)
     pos = 0
     for case, io, terms in zip(cases, ios, allterms):
         res = results[pos:pos + len(terms)]
         pos += len(terms)
         nt = len(case["_sv"].resp) > 0
+        if case.get("near_flat_weights"):
+            rep.dist("near-flat-weights (1 +- j * 2^-20)")
         rep.count_case(cu.replayable(case), nt)
         describe(rep, case)
         if nt:
